@@ -10,6 +10,7 @@ import GrcVerif.FsmCheck
 import GrcVerif.IR
 import GrcVerif.Rules
 import GrcVerif.Precedence
+import GrcVerif.Check03
 namespace Grc.Driver
 
 structure State where
@@ -160,6 +161,84 @@ def cmdC06 (st : State) : Except String (List String) := do
         out := out ++ [s!"pass {pj.index} FAIL " ++ " ; ".intercalate fails]
   return out ++ ["done"]
 
+/-- C03: everything decodes strictly, all code blocks are well-formed stack-machine programs with valid references. -/
+def cmdC03 (st : State) : Except String (List String) := do
+  let mut fails : List String := []
+  let silf? := getSilf st
+  match silf? with
+  | .error e => return [s!"FAIL Silf: {e}", "done"]
+  | .ok silf =>
+    let n := silf.maxGlyphID + 1
+    let glat? := getGlat st
+    let mut numAttrs := 0
+    match glat? with
+    | .error e => fails := fails ++ [s!"Glat/Gloc: {e}"]
+    | .ok (gloc, glat) =>
+      numAttrs := gloc.numAttrs
+      if glat.glyphs.size != n then fails := fails ++ ["Glat glyph count"]
+      for a in [silf.attrPseudo, silf.attrBreakWeight, silf.attrDirectionality] do
+        if a ≥ gloc.numAttrs then fails := fails ++ [s!"Silf header names glyph attribute {a} ≥ numAttrs {gloc.numAttrs}"]
+    let feat? := (do let t ← getTable st tagFeat; P.run parseFeat t)
+    let mut numFeats := 0
+    match feat? with
+    | .error e => fails := fails ++ [s!"Feat: {e}"]
+    | .ok f => numFeats := f.feats.size
+    match (do let t ← getTable st tagSill; P.run parseSill t) with
+    | .error e => fails := fails ++ [s!"Sill: {e}"]
+    | .ok _ => pure ()
+    match (do let t ← getTable st tagName; P.run parseName t) with
+    | .error e => fails := fails ++ [s!"name: {e}"]
+    | .ok _ => pure ()
+    if silf.lbGID > silf.maxGlyphID then fails := fails ++ ["lbGID > maxGlyphID"]
+    for (u, g) in silf.pseudoMap do
+      if g > silf.maxGlyphID then fails := fails ++ [s!"pseudo glyph {g} for U+{u} > maxGlyphID"]
+    let numClasses := silf.classes.linear.size + silf.classes.indexed.size
+    for c in silf.classes.linear do
+      for g in c do
+        if g ≥ n then fails := fails ++ [s!"class glyph {g} > maxGlyphID"]
+    for c in silf.classes.indexed do
+      for (g, i) in c do
+        if g ≥ n then fails := fails ++ [s!"class glyph {g} > maxGlyphID"]
+        if i ≥ c.size then fails := fails ++ [s!"class index {i} ≥ class size {c.size}"]
+    let env : Chk.RefEnv := { numClasses, numGlyphAttrs := numAttrs, numFeats, numUser := silf.numUserDefn }
+    let mut pi := 0
+    for p in silf.passes do
+      fails := fails ++ Chk.passCodeOk env pi p
+      for r in p.ranges do
+        if r.last ≥ n then fails := fails ++ [s!"pass {pi}: range glyph {r.last} > maxGlyphID"]
+      pi := pi + 1
+    let codeBlocks := silf.passes.foldl (fun a p => a + 1 + 2 * p.numRules) 0
+    if fails.isEmpty then
+      return [s!"ok silfVersion={silf.version} passes={silf.numPasses} classes={numClasses} codeBlocks={codeBlocks} glyphs={n} compressed={silf.compressed}", "done"]
+    else return (fails.map (fun f => s!"FAIL {f}")) ++ ["done"]
+
+/-- C04: class values (Lean ClassSem on the IR definitions) and substitution behaviour of the stored class map. -/
+def cmdC04 (st : State) : Except String (List String) := do
+  let silf ← getSilf st
+  let ir := st.ir
+  let mut out : List String := []
+  -- (a) IR self-check: class values recomputed by the Lean semantics from the definition trees
+  let defsFn : Nat → Cls.ClassDef := fun c => ir.classDefs.getD c (.glyphs [])
+  let mut nDefs := 0
+  for c in [0:ir.classDefs.size] do
+    let v := Cls.value defsFn (ir.classDefs.size + 1) (defsFn c)
+    nDefs := nDefs + 1
+    if v != ir.classes.getD c [] then
+      out := out ++ [s!"IRERR class {c}: Lean ClassSem value {v} differs from generator value {ir.classes.getD c []}"]
+  let mut nItems := 0
+  for pj in ir.passes do
+    match silf.passes[pj.index]? with
+    | none => out := out ++ [s!"FAIL pass {pj.index}: no such pass in font"]
+    | some pass =>
+      let mut ri := 0
+      for r in pj.rules do
+        nItems := nItems + (r.items.filter (fun it => match it.out with | some (.cls _ _) => true | _ => false)).length
+        for m in Chk.checkRuleSubst ir silf.classes r (pass.actions.getD ri ByteArray.empty) do
+          out := out ++ [s!"FAIL pass {pj.index} rule {ri} (line {r.line}): {m}"]
+        ri := ri + 1
+  if out.isEmpty then return [s!"ok classDefs={nDefs} substItems={nItems} linear={silf.classes.linear.size} indexed={silf.classes.indexed.size}", "done"]
+  return out ++ ["done"]
+
 def step (st : State) (toks : List String) : IO (State × List String) := do
   match toks with
   | [] => return (st, [])
@@ -206,6 +285,14 @@ def step (st : State) (toks : List String) : IO (State × List String) := do
     | .error e => return (st, [s!"error {e}"])
   | ["c02"] =>
     match cmdC02 st with
+    | .ok ls => return (st, ls)
+    | .error e => return (st, [s!"error {e}", "done"])
+  | ["c03"] =>
+    match cmdC03 st with
+    | .ok ls => return (st, ls)
+    | .error e => return (st, [s!"error {e}", "done"])
+  | ["c04"] =>
+    match cmdC04 st with
     | .ok ls => return (st, ls)
     | .error e => return (st, [s!"error {e}", "done"])
   | ["c06"] =>
